@@ -149,6 +149,8 @@ class Gen:
     def leaf_spec(self, t):
         rng = self.rng
         r = rng.random()
+        if isinstance(t, int) and not isinstance(t, bool) and rng.random() < 0.35:
+            return ['fn', 'float'], float(t)
         if r < 0.45:
             return self.probe(), t
         if r < 0.9:
@@ -207,6 +209,11 @@ def eval_plan(G, item, plan, stats):
             stats['reach.fault_absorbed'] = stats.get('reach.fault_absorbed', 0) + 1
         return viols, digest, None
     err = res[1]
+    try:
+        str(err)
+    except Exception as ex:
+        V('trace-structure', f'str-raises/{type(ex).__name__}', 'a message with a target-spec trace', repr(ex)[:200])
+        return viols, digest, None
     if not isinstance(err, G.GlomError):
         stats['non_glomerror'] = stats.get('non_glomerror', 0) + 1
         return viols, digest, None
@@ -287,8 +294,9 @@ def run_seed(seed, tier):
     stats['points'] = len(points)
     plans = [{}]
     for site, nth in points[:30]:
-        plans.append({f'0:{site}#{nth}': {'cls': 'UGlomErr'}})
-        plans.append({f'0:{site}#{nth}': {'cls': rng.choice(['ValueError', 'KeyError', 'UserErr'])}})
+        plans.append({f'0:{site}#{nth}': {'cls': rng.choice(['UGlomErr', 'UGlomErr', 'UGlomErrInit', 'UGlomMixed'])}})
+        plans.append({f'0:{site}#{nth}': {'cls': rng.choice(['ValueError', 'KeyError', 'UserErr', 'UGlomArity',
+                                                             'UGlomKwOnly', 'UserArity'])}})
     for _ in range(6 if len(points) >= 2 else 0):
         chosen = rng.sample(points, min(len(points), rng.randint(2, 4)))
         plan = {}
